@@ -172,7 +172,11 @@ func (s c13sink) Close() error { return s.SimSink.Close() }
 
 func c13multi(c *Ctx) {
 	g, r := c.G, c.R
-	k := 2 + g.Weighted(3, 3, 1)
+	k := 2 + g.Weighted(6, 6, 2, 1)
+	if k == 5 {
+		k = 5 + g.Draw(4) // now and then a wide one: 5-8 sinks, most of them failing at once
+		c.R.Probe("multi-WriteSyncer over 5-8 sinks")
+	}
 	plen := pick(g, 1, 2, 5, 16, 100)
 	payload := []byte(strings.Repeat("p", plen-1) + "\n")
 	total := 1
@@ -225,7 +229,11 @@ func c13multi(c *Ctx) {
 		for i := 0; i < k; i++ {
 			name := fmt.Sprintf("s%d", i)
 			s := zsim.NewSimSink(r, name, 1, 1)
-			o, e := c13outcome(cc%6, plen, name, v+i)
+			digit := cc % 6
+			if k >= 5 && digit%2 == 0 && (v+i)%3 != 0 {
+				digit++ // wide ones: two sinks in three fail in the same call
+			}
+			o, e := c13outcome(digit, plen, name, v+i)
 			cc /= 6
 			if sharedErr && e != nil {
 				o.Err, e = errC13shared, errC13shared
